@@ -268,9 +268,9 @@ EvalI(m, ex, e) ==
                exb == IF AsCoded THEN as.ex ELSE as.ex \o saved
                b  == EvalI(m1, exb, f.body)
                sv2 == IF AsCoded THEN saved ELSE [i \in 1..np |-> b.ex[Len(as.ex) + i]]
-               \* AsCoded: the result may be a view of a parameter's buffer, which is then overwritten by the restore;
-               \* repaired: the result is cloned first
-               h2 == IF AsCoded \/ b.h.k = "tmp" THEN b.h ELSE Tmp(b.m.ptr[b.h.c])
+               \* the result is cloned before the parameters are restored (repaired in /repo by the C20 fix: a result that
+               \* was a view of a parameter's buffer used to be overwritten by the restore)
+               h2 == IF b.h.k = "tmp" THEN b.h ELSE Tmp(b.m.ptr[b.h.c])
                m2 == [b.m EXCEPT !.ptr = [c \in Cells |-> IF \E i \in 1..np : f.params[i] = c
                                                           THEN sv2[CHOOSE i \in 1..np : f.params[i] = c].p ELSE @[c]]]
            IN [m |-> m2, ex |-> SubSeq(b.ex, 1, n), h |-> h2, err |-> b.err, gc |-> as.gc + b.gc]
